@@ -657,4 +657,79 @@ theorem firsts_nodup {γ : Type} [DecidableEq γ] : ∀ (l seen : List γ), (fir
       have := ((mem_firsts ys (y :: seen) y).mp hm).2
       exact this (List.mem_cons_self)
 
+/-! ### recorded sizes are byte counts; reachability -/
+
+mutual
+theorem fsize_eq_leaves (len : α → Nat) : ∀ n : FNode α, n.fsize len = (n.leaves.map len).sum
+  | .leaf k d => by simp [FNode.fsize, FNode.leaves]
+  | .inner ks s => by simp only [FNode.fsize, FNode.leaves]; exact fsizeL_eq_leaves len ks
+theorem fsizeL_eq_leaves (len : α → Nat) : ∀ ks : List (FNode α), fsizeL len ks = ((leavesL ks).map len).sum
+  | [] => by simp [fsizeL, leavesL]
+  | k :: ks => by simp [fsizeL, leavesL, fsize_eq_leaves len k, fsizeL_eq_leaves len ks]
+end
+
+theorem sum_map_length_eq {β : Type} (l : List (List β)) : (l.map List.length).sum = l.flatten.length := by
+  rw [List.length_flatten]
+
+/-- reachable by following links -/
+inductive Reach : UNode α → UNode α → Prop
+  | refl (r : UNode α) : Reach r r
+  | step {r b c : UNode α} : Reach r b → c ∈ b.links → Reach r c
+
+theorem Reach.trans {a b c : UNode α} (h1 : Reach a b) (h2 : Reach b c) : Reach a c := by
+  induction h2 with
+  | refl => exact h1
+  | step _ hl ih => exact Reach.step ih hl
+
+mutual
+theorem post_reach : ∀ (n x : FNode α), x ∈ n.post → Reach (UNode.file n) (UNode.file x)
+  | .leaf k d, x, hx => by
+    simp only [FNode.post, List.mem_singleton] at hx
+    subst hx; exact Reach.refl _
+  | .inner ks s, x, hx => by
+    simp only [FNode.post, List.mem_append, List.mem_singleton] at hx
+    rcases hx with hx | rfl
+    · obtain ⟨k, hk, hr⟩ := postL_reach ks x hx
+      exact Reach.trans (Reach.step (Reach.refl _) (by simp only [UNode.links, FNode.links]; exact List.mem_map.mpr ⟨k, hk, rfl⟩)) hr
+    · exact Reach.refl _
+theorem postL_reach : ∀ (ks : List (FNode α)) (x : FNode α), x ∈ postL ks → ∃ k ∈ ks, Reach (UNode.file k) (UNode.file x)
+  | [], x, hx => by simp [postL] at hx
+  | k :: ks, x, hx => by
+    simp only [postL, List.mem_append] at hx
+    rcases hx with hx | hx
+    · exact ⟨k, List.mem_cons_self, post_reach k x hx⟩
+    · obtain ⟨k', hk', hr⟩ := postL_reach ks x hx
+      exact ⟨k', List.mem_cons_of_mem _ hk', hr⟩
+end
+
+mutual
+theorem blocks_reach : ∀ (n b : UNode α), b ∈ n.blocks → Reach n b
+  | .file f, b, hb => by
+    simp only [UNode.blocks, List.mem_map] at hb
+    obtain ⟨x, hx, rfl⟩ := hb
+    exact post_reach f x hx
+  | .symlink t, b, hb => by
+    simp only [UNode.blocks, List.mem_singleton] at hb
+    subst hb; exact Reach.refl _
+  | .dir ls, b, hb => by
+    simp only [UNode.blocks, List.mem_append, List.mem_singleton] at hb
+    rcases hb with hb | rfl
+    · obtain ⟨x, hx, hr⟩ := blocksL_reach ls b hb
+      exact Reach.trans (Reach.step (Reach.refl _) (by simp only [UNode.links]; exact List.mem_map.mpr ⟨x, hx, rfl⟩)) hr
+    · exact Reach.refl _
+theorem blocksL_reach : ∀ (ls : List (String × UNode α)) (b : UNode α), b ∈ blocksL ls → ∃ x ∈ ls, Reach x.2 b
+  | [], b, hb => by simp [blocksL] at hb
+  | (n, u) :: rest, b, hb => by
+    simp only [blocksL, List.mem_append] at hb
+    rcases hb with hb | hb
+    · exact ⟨(n, u), List.mem_cons_self, blocks_reach u b hb⟩
+    · obtain ⟨x, hx, hr⟩ := blocksL_reach rest b hb
+      exact ⟨x, List.mem_cons_of_mem _ hx, hr⟩
+end
+
+theorem reach_blocks (n b : UNode α) (h : Reach n b) : b ∈ n.blocks := by
+  induction h with
+  | refl => exact n.mem_blocks_self
+  | step _ hl ih => exact blocks_closed n _ _ ih hl
+
 end CV.C13.Imp
